@@ -52,8 +52,8 @@ type frame struct {
 	visits    map[int]int
 	cur       ssa.Instruction
 	// if-conversion state: when set, phis in block read ite(mcond, fromT, fromF)
-	merge  []mergeEdge // pending if-conversion for the next block
-	cmerge []mergeEdge // active for the block being executed
+	merge        []mergeEdge // pending if-conversion for the next block
+	cmerge       []mergeEdge // active for the block being executed
 	goroutineTop bool
 }
 
@@ -74,10 +74,10 @@ type Exec struct {
 	gevents    []ghostEvent
 	fresh      map[string]int
 	clockFloor *Term
-	spec    int // >0 while speculatively evaluating a pure region
-	watchObj map[*Object]*mutexGhost
-	watchMap map[*MapObj]*mutexGhost
-	watchOn  bool
+	spec       int // >0 while speculatively evaluating a pure region
+	watchObj   map[*Object]*mutexGhost
+	watchMap   map[*MapObj]*mutexGhost
+	watchOn    bool
 	// hooks
 	fnNames map[*ssa.Function]string
 }
